@@ -16,7 +16,7 @@ func init() {
 	register(&Checker{ID: "C06", Run: runC06, Explain: "Structural necessary conditions of 'sniffing never alters or withholds payload', decided on the type-checked source of component/sniffing (+ quicutils) and its callers: " +
 		"(1) RESTORE: the only code that writes into the sniffed bytes in place is QUIC header-protection removal; in sniffQuicBlock the bytes it may touch (first byte, packet-number bytes) are saved and their restoration is registered by defer before decryption starts, so every exit — including the decryption-failure return — leaves the datagram as the client sent it; the reviewed set of in-place writers is closed; " +
 		"(2) BOUND: every slice expression over a local byte slice with a non-constant upper bound is dominated by a comparison of that bound with the length of that same slice (the TLS record-completeness test compares the record length with the bytes after the record header, not with the whole buffer); " +
-		"(3) LOCATOR: a value returned by Locator.At/Range/Slice is used only after its error was tested; (4) DEADLINE: sniffing read deadlines are cleared on every path (shared with C05); (5) TIMEOUT/REPLAY: every sniffer is constructed with the configured sniffing timeout; bytes enter the replay buffer only through the reviewed writers. " +
+		"(3) LOCATOR: a value returned by Locator.At/Range/Slice is used only after its error was tested; (4) DEADLINE: sniffing read deadlines are cleared on every path (shared with C05); ARMED: every read of a deadline-bounded detection window is dominated by the arm of that deadline (never armed under a first-time flag while the disarm runs after every read); (5) TIMEOUT/REPLAY: every sniffer is constructed with the configured sniffing timeout; bytes enter the replay buffer only through the reviewed writers. " +
 		"Not decided, stated plainly: absence of panics / out-of-bounds for every byte string (the compiler leaves ~40 unproven bounds checks here; discharging them needs a relational numeric domain), that the extracted name is the one carried, recognition under all chunkings."})
 }
 
@@ -27,6 +27,7 @@ func runC06(c *Ctx) {
 	us := units(c.P, "component/sniffing", nil)
 	arms := pairDeadlines(c, "DEADLINE", us)
 	c.R.Floor("DEADLINE", arms, 2)
+	c.R.Floor("ARMED", armedReads(c, "ARMED", us), 1)
 	c06Replay(c)
 }
 
